@@ -1,23 +1,29 @@
-(* C04 - segmentation independence: what one rfbProcessClientMessage call does (result state,
-   callbacks, allocations, writes, closing - everything except the waits) depends only on the byte
-   stream, not on how TCP cut it into segments. *)
+(* C04 - segmentation independence: what the server does with a connection (per rfbProcessClientMessage
+   call: message type, resulting state, callbacks, allocations, writes, closing - everything except the
+   waits) depends only on the byte stream, not on how TCP cut it into segments nor on the gaps between the
+   segments, as long as no gap reaches the client-wait time. *)
 From LV Require Import Wire.C2S Wire.C2SProofs.
 Require Import ZifyBool.
 Local Open Scope Z_scope.
 
-(* a peer that only sends (segments of any sizes), possibly ending with an orderly shutdown *)
-Inductive benign : list event -> Prop :=
-| bn_nil : benign []
-| bn_eof : benign [EEof]
-| bn_data : forall l r, l <> [] -> benign r -> benign (EData l :: r).
+(* a peer that only sends: segments of any sizes, separated by pauses that - accumulated since the last
+   segment - stay below the time-out [tmo]; possibly ending with an orderly shutdown *)
+Fixpoint gaps_ok (tmo paused : Z) (evs : list event) : Prop :=
+  match evs with
+  | [] => True
+  | EData l :: r => l <> [] /\ gaps_ok tmo 0 r
+  | EPause t :: r => 0 < t /\ paused + t < tmo /\ gaps_ok tmo (paused + t) r
+  | EEof :: r => r = []
+  | _ => False
+  end.
 
 Fixpoint ev_stream (evs : list event) : list Z :=
   match evs with EData l :: r => l ++ ev_stream r | _ :: r => ev_stream r | [] => [] end.
 Fixpoint ev_eof (evs : list event) : bool :=
   match evs with [] => false | EEof :: _ => true | _ :: r => ev_eof r end.
 
-Definition rbenign (r : reader) : Prop :=
-  benign (r_evs r) /\ r_reset r = false /\ r_stalled r = false /\
+Definition rbenign (tmo : Z) (r : reader) : Prop :=
+  gaps_ok tmo 0 (r_evs r) /\ r_reset r = false /\ r_stalled r = false /\
   (r_eof r = true -> r_evs r = [] /\ r_avail r = []).
 
 (* all that matters of a benign reader *)
@@ -32,56 +38,59 @@ Proof. intros. rewrite firstn_app. replace (n - length a)%nat with O by lia. cbn
 Lemma skipn_app_le : forall (A : Type) n (a b : list A), (n <= length a)%nat -> skipn n (a ++ b) = skipn n a ++ b.
 Proof. intros. rewrite skipn_app. replace (n - length a)%nat with O by lia. reflexivity. Qed.
 
+Lemma gaps_ok_eof_stream : forall tmo p evs, gaps_ok tmo p evs -> ev_eof evs = true \/ ev_eof evs = false.
+Proof. intros. destruct (ev_eof evs); auto. Qed.
+
 (* the read loop on a benign event list *)
-Lemma rd_loop_benign : forall tmo evs need acc ws,
-  benign evs -> (0 < need)%nat ->
-  let o := rd_loop tmo evs need acc 0 false ws in
+Lemma rd_loop_benign : forall tmo evs need acc paused ws,
+  gaps_ok tmo paused evs -> (0 < need)%nat ->
+  let o := rd_loop tmo evs need acc paused false ws in
   if (need <=? length (ev_stream evs))%nat
-  then ro_res o = ROk (acc ++ firstn need (ev_stream evs)) /\ rbenign (ro_rd o) /\
+  then ro_res o = ROk (acc ++ firstn need (ev_stream evs)) /\ rbenign tmo (ro_rd o) /\
        view (ro_rd o) = (skipn need (ev_stream evs), ev_eof evs, false)
-  else ro_res o = (if ev_eof evs then RGone else RErr) /\
-       r_avail (ro_rd o) = [] /\ ev_stream (r_evs (ro_rd o)) = [] /\ r_dead (ro_rd o) = false /\
-       r_eof (ro_rd o) = ev_eof evs.
+  else ro_res o = (if ev_eof evs then RGone else RErr) /\ r_dead (ro_rd o) = false.
 Proof.
-  intros tmo evs need acc ws Hb. revert need acc ws.
-  induction Hb as [| |l r Hl Hb IH]; intros need acc ws Hn; cbn zeta.
-  - cbn. destruct need; [lia|]. cbn. repeat split; auto.
-  - cbn. destruct need; [lia|]. cbn. repeat split; auto.
-  - cbn [rd_loop ev_stream ev_eof]. rewrite app_length.
-    destruct (need <=? length l)%nat eqn:E1.
-    + apply Nat.leb_le in E1.
-      assert (E2 : (need <=? length l + length (ev_stream r))%nat = true) by (apply Nat.leb_le; lia).
-      rewrite E2. cbn [ro_res ro_rd].
-      split; [rewrite firstn_app_le by lia; reflexivity|].
-      split.
-      * repeat split; cbn; auto; discriminate.
-      * unfold view. cbn. rewrite skipn_app_le by lia.
-        destruct r as [|e r']; [reflexivity|]. inversion Hb; subst; reflexivity.
-    + apply Nat.leb_gt in E1.
-      specialize (IH (need - length l)%nat (acc ++ l) (ws ++ [0]) ltac:(lia)). cbn zeta in IH.
-      destruct (need - length l <=? length (ev_stream r))%nat eqn:E3.
-      * apply Nat.leb_le in E3.
+  intros tmo evs. induction evs as [|e r IH]; intros need acc paused ws Hg Hn; cbn zeta.
+  - cbn. destruct need; [lia|]. cbn. auto.
+  - destruct e; cbn in Hg; try contradiction.
+    + (* EData *)
+      destruct Hg as [Hl Hg]. cbn [rd_loop ev_stream ev_eof]. rewrite app_length.
+      destruct (need <=? length l)%nat eqn:E1.
+      * apply Nat.leb_le in E1.
         assert (E2 : (need <=? length l + length (ev_stream r))%nat = true) by (apply Nat.leb_le; lia).
-        rewrite E2. destruct IH as (I1 & I2 & I3). split; [|split; [exact I2|]].
-        -- rewrite I1. rewrite <- app_assoc. f_equal.
-           rewrite firstn_app. rewrite (@firstn_all2 _ need l) by lia. reflexivity.
-        -- rewrite I3. rewrite skipn_app. rewrite (@skipn_all2 _ need l) by lia. reflexivity.
-      * apply Nat.leb_gt in E3.
-        assert (E2 : (need <=? length l + length (ev_stream r))%nat = false) by (apply Nat.leb_gt; lia).
-        rewrite E2. exact IH.
+        rewrite E2. cbn [ro_res ro_rd].
+        split; [rewrite firstn_app_le by lia; reflexivity|]. split.
+        -- split; [exact Hg|]. cbn. repeat split; auto; discriminate.
+        -- unfold view. cbn. rewrite skipn_app_le by lia. reflexivity.
+      * apply Nat.leb_gt in E1.
+        specialize (IH (need - length l)%nat (acc ++ l) 0 (ws ++ [paused]) Hg ltac:(lia)). cbn zeta in IH.
+        destruct (need - length l <=? length (ev_stream r))%nat eqn:E3.
+        -- apply Nat.leb_le in E3.
+           assert (E2 : (need <=? length l + length (ev_stream r))%nat = true) by (apply Nat.leb_le; lia).
+           rewrite E2. destruct IH as (I1 & I2 & I3). split; [|split; [exact I2|]].
+           ++ rewrite I1. rewrite <- app_assoc. f_equal.
+              rewrite firstn_app. rewrite (@firstn_all2 _ need l) by lia. reflexivity.
+           ++ rewrite I3. rewrite skipn_app. rewrite (@skipn_all2 _ need l) by lia. reflexivity.
+        -- apply Nat.leb_gt in E3.
+           assert (E2 : (need <=? length l + length (ev_stream r))%nat = false) by (apply Nat.leb_gt; lia).
+           rewrite E2. exact IH.
+    + (* EPause: below the time-out *)
+      destruct Hg as (Ht & Hp & Hg). cbn [rd_loop ev_stream ev_eof].
+      assert (E : (tmo <=? paused + t) = false) by lia. rewrite E.
+      exact (IH need acc (paused + t) ws Hg Hn).
+    + (* EEof *)
+      subst r. cbn. destruct need; [lia|]. cbn. auto.
 Qed.
 
 (* rfbReadExact on a benign reader is a function of the view *)
 Lemma read_exact_benign : forall tmo n r,
-  rbenign r -> 0 < n -> r_dead r = false ->
+  rbenign tmo r -> 0 < n -> r_dead r = false ->
   let o := read_exact tmo n r in
   let '(st, eof, _) := view r in
   if n <=? Z.of_nat (length st)
-  then ro_res o = ROk (firstn (Z.to_nat n) st) /\ rbenign (ro_rd o) /\
+  then ro_res o = ROk (firstn (Z.to_nat n) st) /\ rbenign tmo (ro_rd o) /\
        view (ro_rd o) = (skipn (Z.to_nat n) st, eof, false)
-  else ro_res o = (if eof then RGone else RErr) /\
-       r_avail (ro_rd o) = [] /\ ev_stream (r_evs (ro_rd o)) = [] /\ r_dead (ro_rd o) = false /\
-       r_eof (ro_rd o) = eof.
+  else ro_res o = (if eof then RGone else RErr) /\ r_dead (ro_rd o) = false.
 Proof.
   intros tmo n r (Hb & Hreset & Hst & Heof) Hn Hdead. cbn zeta. unfold view.
   rewrite read_exact_eq. unfold read_exact_ref. rewrite Hdead.
@@ -101,7 +110,7 @@ Proof.
       destruct (r_eof r) eqn:Ee.
       { destruct (Heof eq_refl) as [A B]. unfold tot in En. rewrite A, B in En. cbn in En. lia. }
       rewrite Hreset, Hst.
-      pose proof (rd_loop_benign tmo (r_evs r) (Z.to_nat n - length (r_avail r)) (r_avail r) [] Hb ltac:(lia)) as H.
+      pose proof (rd_loop_benign tmo (r_evs r) (Z.to_nat n - length (r_avail r)) (r_avail r) 0 [] Hb ltac:(lia)) as H.
       cbn zeta in H.
       assert (E2 : (Z.to_nat n - length (r_avail r) <=? length (ev_stream (r_evs r)))%nat = true)
         by (apply Nat.leb_le; unfold tot in En; lia).
@@ -113,9 +122,9 @@ Proof.
     assert (E1 : (S tot <=? length (r_avail r))%nat = false) by (apply Nat.leb_gt; unfold tot; lia).
     rewrite E1.
     destruct (r_eof r) eqn:Ee.
-    { cbn. repeat split; auto. destruct (Heof eq_refl) as [A B]. rewrite A. reflexivity. }
+    { cbn. auto. }
     rewrite Hreset, Hst.
-    pose proof (rd_loop_benign tmo (r_evs r) (S tot - length (r_avail r)) (r_avail r) [] Hb ltac:(unfold tot; lia)) as H.
+    pose proof (rd_loop_benign tmo (r_evs r) (S tot - length (r_avail r)) (r_avail r) 0 [] Hb ltac:(unfold tot; lia)) as H.
     cbn zeta in H.
     assert (E2 : (S tot - length (r_avail r) <=? length (ev_stream (r_evs r)))%nat = false)
       by (apply Nat.leb_gt; unfold tot; lia).
@@ -127,20 +136,24 @@ Definition nowaits (l : list effect) : list effect := filter (fun e => negb (is_
 Lemma nowaits_map_wait : forall ws l, nowaits (map Wait ws ++ l) = nowaits l.
 Proof. induction ws; cbn; auto. Qed.
 
-Lemma rbenign_kill : forall r, rbenign r -> rbenign (kill r).
-Proof. intros r H. exact H. Qed.
+Lemma rbenign_kill : forall tmo r, rbenign tmo r -> rbenign tmo (kill r).
+Proof. intros tmo r H. exact H. Qed.
 
 Lemma view_kill : forall r1 r2, view r1 = view r2 -> view (kill r1) = view (kill r2).
 Proof. intros r1 r2 H. unfold view in *. cbn. inversion H. reflexivity. Qed.
 
+(* the readers after a run: still benign with equal views, or both sockets are gone *)
+Definition post_ok (tmo : Z) (r1 r2 : reader) : Prop :=
+  (rbenign tmo r1 /\ rbenign tmo r2 /\ view r1 = view r2) \/ (r_dead r1 = true /\ r_dead r2 = true).
+
 Lemma run_segmentation : forall A c (p : prog A) r1 r2 v1 r1' e1 v2 r2' e2,
-  rbenign r1 -> rbenign r2 -> view r1 = view r2 ->
+  rbenign (timeout_of c) r1 -> rbenign (timeout_of c) r2 -> view r1 = view r2 ->
   run c p r1 = (v1, r1', e1) -> run c p r2 = (v2, r2', e2) ->
-  v1 = v2 /\ nowaits e1 = nowaits e2.
+  v1 = v2 /\ nowaits e1 = nowaits e2 /\ post_ok (timeout_of c) r1' r2'.
 Proof.
   intros A c p. induction p as [a|n sf k IH|n k IH|e k IH];
     intros r1 r2 v1 r1' e1 v2 r2' e2 Hb1 Hb2 Hv H1 H2; cbn in H1, H2.
-  - inversion H1; inversion H2; subst. auto.
+  - inversion H1; inversion H2; subst. split; auto. split; auto. left; auto.
   - assert (Hd : r_dead r1 = r_dead r2) by (unfold view in Hv; inversion Hv; reflexivity).
     destruct (n <=? 0) eqn:En.
     { rewrite !read_exact_eq in H1, H2. unfold read_exact_ref in H1, H2. rewrite En in H1, H2. cbn in H1, H2.
@@ -148,7 +161,7 @@ Proof.
       inversion H1; inversion H2; subst. exact (IH [] _ _ _ _ _ _ _ _ Hb1 Hb2 Hv E1 E2). }
     destruct (r_dead r1) eqn:Ed1.
     { rewrite !read_exact_eq in H1, H2. unfold read_exact_ref in H1, H2. rewrite En in H1, H2. rewrite Ed1 in H1. rewrite <- Hd in H2. cbn in H1, H2.
-      inversion H1; inversion H2; subst. auto. }
+      inversion H1; inversion H2; subst. split; auto. split; auto. right. cbn. auto. }
     pose proof (read_exact_benign (timeout_of c) n r1 Hb1 ltac:(lia) Ed1) as P1.
     pose proof (read_exact_benign (timeout_of c) n r2 Hb2 ltac:(lia) ltac:(congruence)) as P2.
     cbn zeta in P1, P2. rewrite <- Hv in P2.
@@ -160,9 +173,9 @@ Proof.
       destruct (run c (k (firstn (Z.to_nat n) st)) (ro_rd (read_exact (timeout_of c) n r2))) as [[a2 b2] c2] eqn:E2.
       inversion H1; inversion H2; subst.
       rewrite !nowaits_map_wait. refine (IH _ _ _ _ _ _ _ _ _ B1 B2 _ E1 E2). congruence.
-    + destruct P1 as (R1 & _). destruct P2 as (R2 & _).
+    + destruct P1 as (R1 & D1). destruct P2 as (R2 & D2).
       rewrite R1 in H1. rewrite R2 in H2.
-      destruct eof; inversion H1; inversion H2; subst; rewrite !nowaits_map_wait; auto.
+      destruct eof; inversion H1; inversion H2; subst; rewrite !nowaits_map_wait; (split; [auto|split; [auto|right; cbn; auto]]).
   - assert (Hd : r_dead r1 = r_dead r2) by (unfold view in Hv; inversion Hv; reflexivity).
     assert (Hs1 : r_stalled r1 = false) by (destruct Hb1 as (_ & _ & X & _); exact X).
     assert (Hs2 : r_stalled r2 = false) by (destruct Hb2 as (_ & _ & X & _); exact X).
@@ -174,22 +187,23 @@ Proof.
     { destruct (run c (k false) r1) as [[a1 b1] c1] eqn:E1. destruct (run c (k false) r2) as [[a2 b2] c2] eqn:E2.
       inversion H1; inversion H2; subst. exact (IH false _ _ _ _ _ _ _ _ Hb1 Hb2 Hv E1 E2). }
     destruct (run c (k true) r1) as [[a1 b1] c1] eqn:E1. destruct (run c (k true) r2) as [[a2 b2] c2] eqn:E2.
-    pose proof (IH true _ _ _ _ _ _ _ _ Hb1 Hb2 Hv E1 E2) as [HA HB].
-    inversion H1; inversion H2; subst. split; auto. cbn. f_equal. exact HB.
+    pose proof (IH true _ _ _ _ _ _ _ _ Hb1 Hb2 Hv E1 E2) as (HA & HB & HC).
+    inversion H1; inversion H2; subst. split; auto. split; auto. cbn. f_equal. exact HB.
   - destruct (is_div0 e || is_bad_index e || is_opaque e).
-    { inversion H1; inversion H2; subst. auto. }
+    { inversion H1; inversion H2; subst. split; auto. split; auto. left; auto. }
     destruct (run c k (if is_close e then kill r1 else r1)) as [[a1 b1] c1] eqn:E1.
     destruct (run c k (if is_close e then kill r2 else r2)) as [[a2 b2] c2] eqn:E2.
-    assert (HH : a1 = a2 /\ nowaits c1 = nowaits c2).
+    assert (HH : a1 = a2 /\ nowaits c1 = nowaits c2 /\ post_ok (timeout_of c) b1 b2).
     { destruct (is_close e).
-      - exact (IH _ _ _ _ _ _ _ _ (rbenign_kill _ Hb1) (rbenign_kill _ Hb2) (view_kill _ _ Hv) E1 E2).
+      - exact (IH _ _ _ _ _ _ _ _ (rbenign_kill _ _ Hb1) (rbenign_kill _ _ Hb2) (view_kill _ _ Hv) E1 E2).
       - exact (IH _ _ _ _ _ _ _ _ Hb1 Hb2 Hv E1 E2). }
-    destruct HH as [HA HB]. inversion H1; inversion H2; subst. split; auto. unfold nowaits in *. cbn. rewrite HB. reflexivity.
+    destruct HH as (HA & HB & HC). inversion H1; inversion H2; subst. split; auto. split; auto.
+    unfold nowaits in *. cbn. rewrite HB. reflexivity.
 Qed.
 
-(* one rfbProcessClientMessage call: same byte stream, any two segmentations *)
+(* one rfbProcessClientMessage call: same byte stream, any two segmentations / gap patterns *)
 Lemma segmentation_msg : forall o_corr_f o_scale o_inflate o_pw c s r1 r2,
-  rbenign r1 -> rbenign r2 -> view r1 = view r2 ->
+  rbenign (timeout_of c) r1 -> rbenign (timeout_of c) r2 -> view r1 = view r2 ->
   fst (fst (process_message o_corr_f o_scale o_inflate o_pw c s r1)) =
   fst (fst (process_message o_corr_f o_scale o_inflate o_pw c s r2)) /\
   nowaits (snd (process_message o_corr_f o_scale o_inflate o_pw c s r1)) =
@@ -198,13 +212,191 @@ Proof.
   intros. unfold process_message.
   destruct (run c (message o_corr_f o_scale o_inflate o_pw c s) r1) as [[a1 b1] c1] eqn:E1.
   destruct (run c (message o_corr_f o_scale o_inflate o_pw c s) r2) as [[a2 b2] c2] eqn:E2.
-  cbn. exact (run_segmentation _ c _ r1 r2 a1 b1 c1 a2 b2 c2 H H0 H1 E1 E2).
+  cbn. destruct (run_segmentation _ c _ r1 r2 a1 b1 c1 a2 b2 c2 H H0 H1 E1 E2) as (A & B & _). auto.
 Qed.
 
-Example segmentation_nonvacuous :
-  let r1 := mkReader [] [EData [4; 1; 0; 0]; EData [0; 0; 0; 65]; EEof] false false false false in
-  let r2 := mkReader [4] [EData [1]; EData [0; 0; 0; 0; 0]; EData [65]; EEof] false false false false in
-  rbenign r1 /\ rbenign r2 /\ view r1 = view r2.
+(* ------------------------------------------------------------------------------------------ *)
+(** * The whole connection (run_conn): the sequence of calls and what each does *)
+
+(* the reader handed to rfbProcessClientMessage by the event loop, None: nothing to do *)
+Definition prep (r : reader) : option reader * bool :=
+  match r_avail r with
+  | _ :: _ => (Some r, r_stalled r)
+  | [] => if r_eof r || r_reset r then (Some r, r_stalled r) else top_feed (r_evs r) (r_stalled r)
+  end.
+
+Lemma top_feed_benign : forall tmo evs p,
+  gaps_ok tmo p evs ->
+  match fst (top_feed evs false) with
+  | Some r' => rbenign tmo r' /\ view r' = (ev_stream evs, ev_eof evs, false) /\ snd (top_feed evs false) = false /\
+               (r_avail r' <> [] \/ r_eof r' = true)
+  | None => ev_stream evs = [] /\ ev_eof evs = false /\ snd (top_feed evs false) = false
+  end.
 Proof.
-  cbn. repeat split; try discriminate; repeat (constructor; try discriminate).
+  intros tmo evs. induction evs as [|e r IH]; intros p Hg; cbn [top_feed].
+  - cbn. auto.
+  - destruct e; cbn in Hg; try contradiction.
+    + destruct Hg as [Hl Hg]. cbn. refine (conj _ (conj _ (conj _ _))).
+      * split; [exact Hg|]. cbn. repeat split; auto; discriminate.
+      * reflexivity.
+      * reflexivity.
+      * left. exact Hl.
+    + destruct Hg as (_ & _ & Hg). exact (IH _ Hg).
+    + subst r. cbn. refine (conj _ (conj _ (conj _ _))).
+      * split; cbn; auto.
+      * reflexivity.
+      * reflexivity.
+      * right. reflexivity.
+Qed.
+
+Lemma prep_benign : forall tmo r, rbenign tmo r -> r_dead r = false ->
+  match fst (prep r) with
+  | Some r' => rbenign tmo r' /\ view r' = view r /\ (r_avail r' <> [] \/ r_eof r' = true)
+  | None => fst (fst (view r)) = [] /\ snd (fst (view r)) = false
+  end.
+Proof.
+  intros tmo r B Hdead. pose proof B as (Hg & Hreset & Hst & Heof). unfold prep.
+  destruct (r_avail r) eqn:Ea.
+  - rewrite Hreset, Hst. destruct (r_eof r) eqn:Ee; cbn [orb fst].
+    + split; [exact B|]. split; auto.
+    + pose proof (top_feed_benign tmo (r_evs r) 0 Hg) as H.
+      destruct (fst (top_feed (r_evs r) false)) as [r'|].
+      * destruct H as (B' & V & _ & N). split; [exact B'|]. split; [|exact N].
+        rewrite V. unfold view. rewrite Ea, Ee, Hdead. reflexivity.
+      * destruct H as (S1 & S2 & _). unfold view. rewrite Ea, Ee. cbn. auto.
+  - cbn [fst]. split; [exact B|]. split; auto. left. rewrite Ea. discriminate.
+Qed.
+
+Definition obs_nw (o : step_obs) : Z * option cstate * list effect :=
+  match o with mkObs ty st eff => (ty, st, nowaits eff) end.
+
+Lemma run_conn_step : forall o_corr_f o_scale o_inflate o_pw c f s r,
+  run_conn o_corr_f o_scale o_inflate o_pw c (S f) s r =
+  if s_closed s || r_dead r then ([], Some s, r, true) else
+  match prep r with
+  | (None, st') => ([], Some s, mkReader [] [] false false st' (r_dead r), true)
+  | (Some r1, _) =>
+      let ty := match r_avail r1 with b :: _ => b | [] => -1 end in
+      let '(v, r2, e) := process_message o_corr_f o_scale o_inflate o_pw c s r1 in
+      match v with
+      | None => ([mkObs ty None e], None, r2, true)
+      | Some s' => let '(l, v', r3, ok) := run_conn o_corr_f o_scale o_inflate o_pw c f s' r2 in
+                   (mkObs ty (Some s') e :: l, v', r3, ok)
+      end
+  end.
+Proof.
+  intros. cbn [run_conn]. destruct (s_closed s || r_dead r); [reflexivity|].
+  unfold prep. destruct (r_avail r) eqn:Ea.
+  - destruct (r_eof r || r_reset r).
+    + rewrite Ea. reflexivity.
+    + destruct (top_feed (r_evs r) (r_stalled r)) as [[r1|] st']; reflexivity.
+  - rewrite Ea. reflexivity.
+Qed.
+
+Definition ty_of (r : reader) : Z := match r_avail r with b :: _ => b | [] => -1 end.
+
+Lemma ty_of_view : forall tmo r, rbenign tmo r -> (r_avail r <> [] \/ r_eof r = true) ->
+  ty_of r = match fst (fst (view r)) with b :: _ => b | [] => -1 end.
+Proof.
+  intros tmo r (Hg & _ & _ & Heof) N. unfold ty_of, view. cbn [fst].
+  destruct (r_avail r) as [|b t] eqn:Ea; [|reflexivity].
+  destruct N as [N|N]; [congruence|]. destruct (Heof N) as [A _]. rewrite A. reflexivity.
+Qed.
+
+Lemma run_conn_stop : forall o_corr_f o_scale o_inflate o_pw c f s r,
+  s_closed s || r_dead r = true ->
+  run_conn o_corr_f o_scale o_inflate o_pw c (S f) s r = ([], Some s, r, true).
+Proof. intros. rewrite run_conn_step. rewrite H. reflexivity. Qed.
+
+Lemma prep_mu : forall r r', fst (prep r) = Some r' -> (mu r' <= mu r)%nat.
+Proof.
+  intros r r' H. unfold prep in H. destruct (r_avail r) eqn:Ea.
+  - destruct (r_eof r || r_reset r); [inversion H; subst; lia|].
+    destruct (top_feed (r_evs r) (r_stalled r)) as [o st'] eqn:Et. cbn in H. subst o.
+    pose proof (top_feed_mu corr_q scale_q inflate_none pw_none _ _ _ _ Et). unfold mu at 2, rbytes. rewrite Ea. cbn. lia.
+  - inversion H; subst. lia.
+Qed.
+
+Section ConnSeg.
+  Variable o_corr_f : Z -> Z -> Z -> Z -> Z -> Z -> Z -> Z -> rect4.
+  Variable o_scale : Z -> Z -> Z -> Z.
+  Variable o_inflate : Z -> list Z -> zres.
+  Variable o_pw : list Z -> bool.
+  Variable c : cfg.
+  Let tmo := timeout_of c.
+  Let RC := run_conn o_corr_f o_scale o_inflate o_pw c.
+
+  Lemma run_conn_segmentation : forall f1 f2 s r1 r2,
+    rbenign tmo r1 -> rbenign tmo r2 -> view r1 = view r2 ->
+    (mu r1 + 2 <= f1)%nat -> (mu r2 + 2 <= f2)%nat ->
+    map obs_nw (fst (fst (fst (RC f1 s r1)))) = map obs_nw (fst (fst (fst (RC f2 s r2)))) /\
+    snd (fst (fst (RC f1 s r1))) = snd (fst (fst (RC f2 s r2))).
+  Proof.
+    induction f1 as [|f1 IH]; intros f2 s r1 r2 B1 B2 Hv F1 F2; [lia|].
+    destruct f2 as [|f2]; [lia|].
+    unfold RC. rewrite !run_conn_step.
+    assert (Hd : r_dead r1 = r_dead r2) by (unfold view in Hv; inversion Hv; reflexivity).
+    rewrite <- Hd.
+    destruct (s_closed s || r_dead r1) eqn:Ecl; [cbn; auto|].
+    apply orb_false_elim in Ecl. destruct Ecl as [Ecl Ed1].
+    pose proof (prep_benign tmo r1 B1 Ed1) as P1.
+    pose proof (prep_benign tmo r2 B2 ltac:(congruence)) as P2.
+    destruct (prep r1) as [[p1|] st1] eqn:Ep1; destruct (prep r2) as [[p2|] st2] eqn:Ep2; cbn [fst] in P1, P2.
+    - (* both have something to process *)
+      destruct P1 as (Bp1 & Vp1 & N1). destruct P2 as (Bp2 & Vp2 & N2).
+      assert (Vp : view p1 = view p2) by congruence.
+      assert (Hty : ty_of p1 = ty_of p2) by (rewrite (ty_of_view tmo p1 Bp1 N1), (ty_of_view tmo p2 Bp2 N2), Vp; reflexivity).
+      fold (ty_of p1). fold (ty_of p2). rewrite Hty. cbv zeta.
+      destruct (process_message o_corr_f o_scale o_inflate o_pw c s p1) as [[v1 q1] e1] eqn:E1.
+      destruct (process_message o_corr_f o_scale o_inflate o_pw c s p2) as [[v2 q2] e2] eqn:E2.
+      unfold process_message in E1, E2.
+      destruct (run_segmentation _ c _ p1 p2 v1 q1 e1 v2 q2 e2 Bp1 Bp2 Vp E1 E2) as (HV & HE & HP).
+      subst v2.
+      destruct v1 as [s'|]; [|cbn; rewrite HE; auto].
+      pose proof (process_message_progress o_corr_f o_scale o_inflate o_pw c s p1 (Some s') q1 e1 E1) as [M1 G1].
+      pose proof (process_message_progress o_corr_f o_scale o_inflate o_pw c s p2 (Some s') q2 e2 E2) as [M2 G2].
+      assert (Mp1 : (mu p1 <= mu r1)%nat) by (apply prep_mu; rewrite Ep1; reflexivity).
+      assert (Mp2 : (mu p2 <= mu r2)%nat) by (apply prep_mu; rewrite Ep2; reflexivity).
+      assert (Hrec : map obs_nw (fst (fst (fst (RC f1 s' q1)))) = map obs_nw (fst (fst (fst (RC f2 s' q2)))) /\
+                     snd (fst (fst (RC f1 s' q1))) = snd (fst (fst (RC f2 s' q2)))).
+      { destruct f1 as [|f1']; [lia|]. destruct f2 as [|f2']; [lia|].
+        destruct (s_closed s') eqn:Ecl'.
+        - unfold RC. rewrite !run_conn_stop by (rewrite Ecl'; reflexivity). cbn. auto.
+        - destruct HP as [(Bq1 & Bq2 & Vq)|(Dq1 & Dq2)].
+          + destruct G1 as [G1|G1]; [congruence|]. destruct G2 as [G2|G2]; [congruence|].
+            apply IH; auto; lia.
+          + unfold RC. rewrite !run_conn_stop by (rewrite ?Dq1, ?Dq2, orb_true_r; reflexivity). cbn. auto. }
+      fold RC.
+      destruct (RC f1 s' q1) as [[[l1 w1] x1] k1]. destruct (RC f2 s' q2) as [[[l2 w2] x2] k2].
+      cbn in Hrec |- *. destruct Hrec as [Hl Hw]. rewrite HE, Hl, Hw. auto.
+    - (* r1 has something, r2 nothing: impossible with equal views *)
+      exfalso. destruct P1 as (_ & Vp1 & N1). destruct P2 as (S2 & E2).
+      rewrite <- Hv in S2, E2. rewrite <- Vp1 in S2, E2. unfold view in S2, E2. cbn [fst snd] in S2, E2.
+      destruct N1 as [N1|N1].
+      + apply N1. destruct (r_avail p1); [reflexivity|discriminate].
+      + rewrite N1 in E2. discriminate.
+    - exfalso. destruct P2 as (_ & Vp2 & N2). destruct P1 as (S1 & E1).
+      rewrite Hv in S1, E1. rewrite <- Vp2 in S1, E1. unfold view in S1, E1. cbn [fst snd] in S1, E1.
+      destruct N2 as [N2|N2].
+      + apply N2. destruct (r_avail p2); [reflexivity|discriminate].
+      + rewrite N2 in E1. discriminate.
+    - cbn. auto.
+  Qed.
+
+  (* with the fuel the driver uses *)
+  Lemma segmentation_conn : forall s r1 r2,
+    rbenign tmo r1 -> rbenign tmo r2 -> view r1 = view r2 ->
+    map obs_nw (fst (fst (fst (RC (conn_fuel r1) s r1)))) = map obs_nw (fst (fst (fst (RC (conn_fuel r2) s r2)))) /\
+    snd (fst (fst (RC (conn_fuel r1) s r1))) = snd (fst (fst (RC (conn_fuel r2) s r2))).
+  Proof.
+    intros. apply run_conn_segmentation; auto; unfold conn_fuel, mu, rbytes; lia.
+  Qed.
+End ConnSeg.
+
+Example segmentation_nonvacuous :
+  let r1 := mkReader [] [EData [4; 1; 0; 0]; EPause 19999; EData [0; 0; 0; 65]; EEof] false false false false in
+  let r2 := mkReader [4] [EData [1]; EPause 5; EPause 7; EData [0; 0; 0; 0; 0]; EData [65]; EEof] false false false false in
+  rbenign 20000 r1 /\ rbenign 20000 r2 /\ view r1 = view r2.
+Proof.
+  cbn. repeat split; try discriminate; try lia; auto.
 Qed.
